@@ -158,8 +158,18 @@ func (r *Report) classify(obls, covers, canaries []*Obligation, res map[*Obligat
 		r.violations = append(r.violations, m+"#exists")
 		r.total++
 	}
-	for _, e := range r.engineErrs {
-		r.say("ENGINE-ERROR: %s", e)
+	for i, e := range r.engineErrs {
+		// a contract that can no longer be evaluated against the code (a variable,
+		// loop, field or ghost it mentions has disappeared) means the function changed
+		// in a way the proof does not cover: reported as a violation of the property,
+		// never as success
+		path := filepath.Join(r.vd, "replay", r.prop, fmt.Sprintf("contract-mismatch-%d.txt", i))
+		os.MkdirAll(filepath.Dir(path), 0755)
+		os.WriteFile(path, []byte("the contract could not be applied to the current code:\n"+e+"\n"), 0644)
+		r.say("CONTRACT-MISMATCH: %s", e)
+		r.say("VIOLATION property=%s replay=%s obligation=contract-applies#%d status=contract-mismatch no-failing-input-found", r.prop, path, i)
+		r.violations = append(r.violations, fmt.Sprintf("contract-applies#%d", i))
+		r.total++
 	}
 	// expected obligations that are no longer generated
 	have := map[string]bool{}
@@ -180,9 +190,6 @@ func (r *Report) classify(obls, covers, canaries []*Obligation, res map[*Obligat
 }
 
 func (r *Report) exitCode() int {
-	if len(r.engineErrs) > 0 {
-		return 2
-	}
 	if len(r.violations) > 0 || len(r.vacuous) > 0 || len(r.canaryBad) > 0 {
 		return 1
 	}
